@@ -1,11 +1,12 @@
 \* one subject, the five minute window: clock steps 2 and 299 around registrations, re-registration, replays
 SPECIFICATION MCSpec
-CONSTANTS AlreadyChecked = TRUE PkPerAuthority = TRUE CheckSubject = TRUE CheckPermission = TRUE Window = 300 RespCap = 10 FitAll = 8
+CONSTANTS AlreadyChecked = TRUE PkPerAuthority = TRUE CheckSubject = TRUE CheckPermission = TRUE CommitBeforeSend = TRUE Window = 300 RespCap = 10 FitAll = 8
   Regs = {1} Senders = {1} TokIdx = {2} MdIdx = {2} AttIdx = {1} MissIdx = {1}
-  Ticks = {2, 299} OwnerPeers = {} KnownVals = {} AttSend = {} RegFirst = FALSE
-  MaxReg = 2 MaxMsg = 3 MaxTick = 3 MaxOwn = 0
+  Ticks = {2, 299} OwnerPeers = {} KnownVals = {} AttSend = {} RegFirst = FALSE FaultTabs = {}
+  MaxReg = 2 MaxMsg = 3 MaxTick = 3 MaxOwn = 0 MaxFault = 0
 INVARIANT TypeOK
 INVARIANT SignsOnlyConsented
 INVARIANT StoresOnlyValidlySigned
 INVARIANT TokensOnlyUpToPermitted
 INVARIANT TreesVerified
+INVARIANT SentOnlyRecorded
